@@ -9,6 +9,8 @@ import (
 
 	of "github.com/contiv/libOpenflow/openflow13"
 
+	"golang.org/x/exp/constraints"
+
 	"vh/fw"
 	"vh/prng"
 	"vh/spec"
@@ -91,6 +93,9 @@ func init() {
 			if a.Counters["reg_windows"] != 16*528 {
 				return fmt.Errorf("expected %d register windows, observed %d", 16*528, a.Counters["reg_windows"])
 			}
+			if a.SetSize("window_types") < len(c17WinTypes) {
+				return fmt.Errorf("window arguments were passed in %d of %d integer types", a.SetSize("window_types"), len(c17WinTypes))
+			}
 			if a.SetSize("fields") < 100 || a.Counters["unrepresentable"] < 1000 || a.Counters["representable"] < 10000 {
 				return fmt.Errorf("too few observations: fields=%d %v", a.SetSize("fields"), a.Counters)
 			}
@@ -112,55 +117,139 @@ func c17Rounds(tier string) int {
 }
 
 // c17Call instantiates the generic builder for the dynamic value type.
-// c17Spare is what sits behind the window arguments in the caller's slice (cap > len); c17SpareOK checks it afterwards.
-const c17Spare = -7777777
-
 func c17Call(name string, v any, win []int) (f *of.MatchField, err error) {
-	// the caller spreads a sub-slice of a longer slice: the builder must not write behind the arguments it was given
-	backing := make([]int, len(win), len(win)+3)
-	copy(backing, win)
-	full := backing[:len(win)+3]
-	full[len(win)], full[len(win)+1], full[len(win)+2] = c17Spare, c17Spare, c17Spare
-	win = backing
-	defer func() {
-		if full[len(win)] != c17Spare || full[len(win)+1] != c17Spare || full[len(win)+2] != c17Spare {
-			c17SpareDamage = fmt.Sprintf("window arguments %v were spread from a slice with spare capacity; afterwards the elements behind them read %v", win, full[len(win):])
-		}
-	}()
+	mt := c17WinType(name, v, win)
+	c17LastWinType = mt
 	switch x := v.(type) {
 	case int8:
-		return of.NewMatchField[int8, int](name, x, win...)
+		return c17CallV(name, x, win, mt)
 	case int16:
-		return of.NewMatchField[int16, int](name, x, win...)
+		return c17CallV(name, x, win, mt)
 	case int32:
-		return of.NewMatchField[int32, int](name, x, win...)
+		return c17CallV(name, x, win, mt)
 	case int64:
-		return of.NewMatchField[int64, int](name, x, win...)
+		return c17CallV(name, x, win, mt)
 	case int:
-		return of.NewMatchField[int, int](name, x, win...)
+		return c17CallV(name, x, win, mt)
 	case uint8:
-		return of.NewMatchField[uint8, int](name, x, win...)
+		return c17CallV(name, x, win, mt)
 	case uint16:
-		return of.NewMatchField[uint16, int](name, x, win...)
+		return c17CallV(name, x, win, mt)
 	case uint32:
-		return of.NewMatchField[uint32, int](name, x, win...)
+		return c17CallV(name, x, win, mt)
 	case uint64:
-		// also exercise another Mask type parameter
-		w64 := make([]int64, len(win))
-		for i := range win {
-			w64[i] = int64(win[i])
-		}
-		return of.NewMatchField[uint64, int64](name, x, w64...)
+		return c17CallV(name, x, win, mt)
 	case *big.Int:
-		return of.NewMatchField[*big.Int, int](name, x, win...)
+		return c17CallV(name, x, win, mt)
 	case []byte:
-		return of.NewMatchField[[]byte, int](name, x, win...)
+		return c17CallV(name, x, win, mt)
 	case net.IP:
-		return of.NewMatchField[net.IP, int](name, x, win...)
+		return c17CallV(name, x, win, mt)
 	case net.HardwareAddr:
-		return of.NewMatchField[net.HardwareAddr, int](name, x, win...)
+		return c17CallV(name, x, win, mt)
 	}
 	return nil, fmt.Errorf("harness: unsupported value type %T", v)
+}
+
+// c17WinTypes are the integer types a caller may pass the window arguments in (the builder is generic in them).
+var c17WinTypes = []string{"int", "int64", "int8", "uint8", "int16", "uint16", "int32", "uint32", "uint64", "uint"}
+
+// c17LastWinType is the window-argument type the last c17Call used (for evidence and violation texts).
+var c17LastWinType string
+
+// c17WinType picks, as a pure function of the call, one of the integer types that can hold every window argument.
+func c17WinType(name string, v any, win []int) string {
+	fits := func(t string) bool {
+		for _, w := range win {
+			switch t {
+			case "int8":
+				if w < -128 || w > 127 {
+					return false
+				}
+			case "uint8":
+				if w < 0 || w > 255 {
+					return false
+				}
+			case "int16":
+				if w < -32768 || w > 32767 {
+					return false
+				}
+			case "uint16":
+				if w < 0 || w > 65535 {
+					return false
+				}
+			case "int32":
+				if w < -1<<31 || w > 1<<31-1 {
+					return false
+				}
+			case "uint32":
+				if w < 0 || w > 1<<32-1 {
+					return false
+				}
+			case "uint64", "uint":
+				if w < 0 {
+					return false
+				}
+			}
+		}
+		return true
+	}
+	h := prng.Hash64([]byte(fmt.Sprintf("%s/%T/%s/%v", name, v, c17Snapshot(v), win)))
+	for i := 0; i < len(c17WinTypes); i++ {
+		t := c17WinTypes[(int(h%uint64(len(c17WinTypes)))+i)%len(c17WinTypes)]
+		if fits(t) {
+			return t
+		}
+	}
+	return "int"
+}
+
+func c17CallV[V constraints.Integer | *big.Int | ~[]byte](name string, x V, win []int, mt string) (*of.MatchField, error) {
+	switch mt {
+	case "int64":
+		return c17CallVM[V, int64](name, x, win)
+	case "int8":
+		return c17CallVM[V, int8](name, x, win)
+	case "uint8":
+		return c17CallVM[V, uint8](name, x, win)
+	case "int16":
+		return c17CallVM[V, int16](name, x, win)
+	case "uint16":
+		return c17CallVM[V, uint16](name, x, win)
+	case "int32":
+		return c17CallVM[V, int32](name, x, win)
+	case "uint32":
+		return c17CallVM[V, uint32](name, x, win)
+	case "uint64":
+		return c17CallVM[V, uint64](name, x, win)
+	case "uint":
+		return c17CallVM[V, uint](name, x, win)
+	}
+	return c17CallVM[V, int](name, x, win)
+}
+
+// c17CallVM instantiates the generic builder for value type V and window-argument type M. The caller spreads a
+// sub-slice of a longer slice: the builder must not write behind the arguments it was given (c17Spare sits there).
+func c17CallVM[V constraints.Integer | *big.Int | ~[]byte, M constraints.Integer](name string, x V, win []int) (f *of.MatchField, err error) {
+	var spare M = 77
+	backing := make([]M, len(win), len(win)+3)
+	for i := range win {
+		backing[i] = M(win[i])
+	}
+	full := backing[:len(win)+3]
+	full[len(win)], full[len(win)+1], full[len(win)+2] = spare, spare, spare
+	before := append([]M(nil), backing...)
+	defer func() {
+		if full[len(win)] != spare || full[len(win)+1] != spare || full[len(win)+2] != spare {
+			c17SpareDamage = fmt.Sprintf("window arguments %v were spread from a slice with spare capacity; afterwards the elements behind them read %v", win, full[len(win):])
+		}
+		for i := range before {
+			if backing[i] != before[i] {
+				c17SpareDamage = fmt.Sprintf("window arguments %v read %v after the call", before, backing)
+			}
+		}
+	}()
+	return of.NewMatchField[V, M](name, x, backing...)
 }
 
 // c17SpareDamage is set by c17Call when the builder wrote behind its window arguments.
@@ -284,13 +373,16 @@ func c17One(c *fw.Ctx, name string, W int, vt string, v *big.Int, conv string, o
 	c.Set("conventions", conv)
 	locus := fmt.Sprintf("W=%d/%s", W, vt)
 	detail := func(s string) string {
-		return fmt.Sprintf("NewMatchField(%q, %s(%s), %v): %s", name, vt, v.String(), win, s)
+		return fmt.Sprintf("NewMatchField(%q, %s(%s), %s%v): %s", name, vt, v.String(), c17LastWinType, win, s)
 	}
 	before := c17Snapshot(val)
 	var f *of.MatchField
 	var err error
 	c17SpareDamage = ""
 	p, pv, st := fw.Recover(func() { f, err = c17Call(name, val, win) })
+	if len(win) > 0 {
+		c.Set("window_types", c17LastWinType)
+	}
 	if c17SpareDamage != "" {
 		c.Violation(conv, "argument-modified", "window-arguments", detail(c17SpareDamage))
 	}
